@@ -36,9 +36,9 @@ Record cfg := mkCfg {
   c_maxact : N;      (* MaxActiveTransactions *)
   c_prealloc : bool; (* PreallocFiles *)
   c_psize : N;       (* bytes preallocated (zero-filled) in the tx and commit logs *)
-  c_ahtsync : bool   (* NOT an option of the store: false = the code as it is; true = the code with the
-                        proposed repair fixes/C03-aht-stale-committed-leaf.diff (store.sync() fsyncs the
-                        hash tree after the tx log and before the commit entries are appended) *)
+  c_ahtsync : bool   (* NOT an option of the store: true = the code since fix b260503 (store.sync() fsyncs the
+                        hash tree after the tx log and before the commit entries are appended); false = the
+                        code before that fix (kept for the historical witness Crash/Refuted.v tree_refuted) *)
 }.
 
 Definition alh0 : bytes := H [].
@@ -122,6 +122,14 @@ Definition values_durable_for (s : st) (k : N) : Prop :=
     parse_rec raw = Some (k, prev, body, n) /\ body_vref body = Some (v, vo, vn, hv) /\
     (vn = 0 \/ exists f, nth_error (vls s) (N.to_nat v) = Some f /\ vo + vn <= len (durable f) /\
                          H (slice (durable f) vo vn) = hv).
+
+(* the Alh of transaction k as the running store knows it: committed ones through the commit log,
+   precommitted ones from the commit buffer *)
+Definition tx_alh (s : st) (k : N) : bytes :=
+  if k <=? committed s then alh_at (durable (cml s)) k
+  else match nth_error (pbuf s) (N.to_nat (k - committed s - 1)) with Some (_, a, _, _) => a | None => [] end.
+(* leaf k of the hash tree, as the process sees it *)
+Definition tree_leaf (s : st) (k : N) : bytes := slice (lview (ahd s)) (32 * (k - 1)) 32.
 
 Definition zeros (n : N) : bytes := repeat 0 (N.to_nat n).
 Definition init (c : cfg) (nv : nat) : st :=
